@@ -197,6 +197,28 @@ func checkC14(c *Ctx, r *Report) {
 				}
 			}
 			up(s.Fn, 0)
+			// the dispatcher itself: called with a packet that was READ from the client, i.e. only from a function
+			// that calls packets1.ReadPacket (the MQTT-SN receive loop) - not with a packet somebody fabricated
+			for _, g := range c.repoFuncs("gateway") {
+				calls := false
+				allInstrs(g, func(i ssa.Instruction) {
+					if ci, ok := i.(ssa.CallInstruction); ok && staticCallee(ci.Common()) == m.snDisp {
+						calls = true
+					}
+				})
+				if !calls {
+					continue
+				}
+				reads := false
+				allInstrs(g, func(i ssa.Instruction) {
+					if ci, ok := i.(ssa.CallInstruction); ok && calleeName(ci.Common()) == pkPackets1+".ReadPacket" {
+						reads = true
+					}
+				})
+				if !reads {
+					outside = fnKey(g) + " (which hands the MQTT-SN dispatcher a packet it did not read from the client)"
+				}
+			}
 			if outside != "" {
 				r.bad("R2", key, c.instrPos(s.Call), "the function sending the MQTT DISCONNECT is also entered from "+outside+", which is not part of the handling of a client DISCONNECT: the will is cancelled although the client sent no plain DISCONNECT")
 			} else {
